@@ -91,12 +91,12 @@ func sliceGuard(file, fn, cond, expr string) (bool, error) {
 func genGuards(sb *strings.Builder) error {
 	sb.WriteString("(* bounds checks that dominate the slice expressions they protect, checked on the source with go/ast *)\n")
 	guards := []struct{ name, file, fn, cond, expr string }{
-		{"guard_ann_layer_size", "/repo/router/ping_announce.go", "parseAnnouncePing", "len(apx) < 65", "apx[:len(apx)-64]"},
-		{"guard_ping_hdr_min", "/repo/router/ping.go", "parsePingHeader", "len(data) < 3", "data[1]"},
-		{"guard_ping_hdr_len", "/repo/router/ping.go", "parsePingHeader", "len(data) < 2+hdrLen", "data[2 : hdrLen+2]"},
-		{"guard_traffic_min", "/repo/router/traffic.go", "handleIncomingTraffic", "len(packetData) < 44", "packetData[8:24]"},
-		{"guard_rotate_room", "/repo/m/switch_label.go", "NextRotateSwitchBlock", "returnLabelStart+returnLabel.EncodedSize() > len(block)", "block[returnLabelStart : returnLabelStart+returnLabel.EncodedSize()]"},
-		{"guard_link_frame_min", "/repo/peering/link_frame.go", "Unseal", "len(f) < FrameOffset+FrameOverhead", "f.SequenceNum()"},
+		{"guard_ann_layer_size", repoRoot() + "/router/ping_announce.go", "parseAnnouncePing", "len(apx) < 65", "apx[:len(apx)-64]"},
+		{"guard_ping_hdr_min", repoRoot() + "/router/ping.go", "parsePingHeader", "len(data) < 3", "data[1]"},
+		{"guard_ping_hdr_len", repoRoot() + "/router/ping.go", "parsePingHeader", "len(data) < 2+hdrLen", "data[2 : hdrLen+2]"},
+		{"guard_traffic_min", repoRoot() + "/router/traffic.go", "handleIncomingTraffic", "len(packetData) < 44", "packetData[8:24]"},
+		{"guard_rotate_room", repoRoot() + "/m/switch_label.go", "NextRotateSwitchBlock", "returnLabelStart+returnLabel.EncodedSize() > len(block)", "block[returnLabelStart : returnLabelStart+returnLabel.EncodedSize()]"},
+		{"guard_link_frame_min", repoRoot() + "/peering/link_frame.go", "Unseal", "len(f) < FrameOffset+FrameOverhead", "f.SequenceNum()"},
 	}
 	for _, g := range guards {
 		ok, err := sliceGuard(g.file, g.fn, g.cond, g.expr)
